@@ -216,6 +216,13 @@ def _subs(tier, prop):
             S.append(mk_sub(f'F6-finished-part-blocked-downstream-frees-while-{kind}', with_ops(BLOCKED_FINISHED, [
                 {'k': kind, 'dev': 'p1', 't': 't0'}, {'k': 'restore', 'dev': 'p1', 't': 't1'}]), mons + ['wakeup'],
                 pre=['2 * c1 < t0', 't0 < c1 + c2', 'c1 + c2 < t1']))
+        S.append(mk_sub('F6-two-interruptions-of-one-part', _faults_basic(1, [
+            {'k': 'shutdown', 'dev': 'p1', 't': 't0'}, {'k': 'restore', 'dev': 'p1', 't': 't1'},
+            {'k': 'shutdown', 'dev': 'p1', 't': 't2'}, {'k': 'restore', 'dev': 'p1', 't': 't3'}]), mons + ['cycle'], zero=['cs', 'c0'],
+            pre=['t0 < t1', 't1 < t2', 't2 < t3', 't2 < c1 + (t1 - t0)']))
+        S.append(mk_sub('F6-two-work-orders-on-a-busy-machine', with_ops(serial('P', 1), [
+            {'k': 'workorder', 'dev': 'p1', 't': 't0', 'tag': 'm'}, {'k': 'workorder', 'dev': 'p1', 't': 't1', 'tag': 'm'}],
+            maint=True, durs={'m': 'w0'}), mons, zero=['cs', 'c0'], pre=['t0 < c1', 't0 + w0 < t1', 't1 < c1 + w0']))
         S.append(mk_sub('F6-fail-with-finished-part-blocked', with_ops(serial('PH', 2), [
             {'k': 'fail', 'dev': 'p1', 't': 't0'}, {'k': 'restore', 'dev': 'p1', 't': 't1'}]), mons, zero=['cs', 'c0'],
             pre=['t0 <= t1']))
@@ -270,6 +277,9 @@ def _subs(tier, prop):
         S.append(mk_sub('F6-fail-while-down', _faults_basic(1, [
             {'k': 'shutdown', 'dev': 'p1', 't': 't0'}, {'k': 'armfail', 'dev': 'p1', 't': 't0', 'delay': 'd1'},
             {'k': 'restore', 'dev': 'p1', 't': 't2'}]), mons, zero=['cs', 'c0'], pre=['t0 + d1 <= t2']))
+        sch = {'devices': [{'k': 'scheduler', 'name': 'sch', 'durs': ['d0', 'd1', 'd2'], 'states': ['off', 'on', 'off'], 'cyclical': True}],
+               'horizons': ['H']}
+        S.append(mk_sub('scheduler-off-on-off-cyclical', sch, mons, pre=['H < 2 * (d0 + d1 + d2)'], ranges={'H': (0, 6 * L.T)}))
         S.append(mk_sub('F5-capacity-change', with_ops(resources2(1), [
             {'k': 'addres', 'res': 'r', 'amount': 'a0', 't': 't0'}]), mons, zero=['cs', 'c0'], ranges={'a0': (-1, L.T)}))
     elif prop == 'C16':
@@ -348,6 +358,7 @@ def _subs(tier, prop):
                                     {'k': 'sink', 'name': 'snk', 'up': ['buf'], 'cycle': 'cs'}]}
                 nm = ''.join('1' if b is None else 'B' for b in batches)
                 S.append(mk_sub(f'F7-size{size}-in{nm}', spec, mons, ranges={'b0': (0, 3), 'b1': (0, 3), 'b2': (0, 3)}, zero=['c0']))
+        S.append(mk_sub('F7-batches-through-gate-refused', batches_through_gate(2), ['batch', 'routing'], zero=['cs', 'c0']))
         S.append(mk_sub('F7-buffer-into-batcher-size2', buffer_into_batcher(2), mons, zero=['c0', 'd1'],
                         ranges={'b0': (0, 3), 'b1': (0, 3)}))
         spec = {'devices': [{'k': 'source', 'name': 'src', 'cycle': 0, 'parts': 2, 'batches': ['b0', 'b1']},
@@ -409,7 +420,7 @@ REQUIRED = {
     'C04': ['recurrence_matched', 'blocked_by_downstream'],
     'C11': ['processing_with_resources', 'resources_kept_through_maintenance', 'released_on_failure', 'idle_processor_released'],
     'C15': ['level_recorded', 'failure_recorded', 'produced_recorded', 'supplied_recorded', 'resource_recorded', 'work_order_recorded',
-            'trace_checked'],
+            'trace_checked', 'schedule_recorded', 'schedule_change_to_equal_state_recorded'],
     'C16': ['value_added_by_processing', 'valuable_part_received', 'work_order_cost_charged'],
     'C08': ['idle_longest_decided', 'passed_gate', 'entered_group', 'left_group_through_entry_path'],
     'C17': ['full_batch_emitted', 'batch_unpacked', 'partial_batch_waiting', 'history_reached_contained_part', 'empty_batch_input'],
